@@ -302,6 +302,7 @@ static Json gen_oneshot(Rng &r0, const std::string &focus, int tier)
         Json mem = Json::obj();
         mem.set("place", (int) r.below(2)).set("oplace", (int) r.below(2)).set("fill", r.u64() >> 24).set("regs", r.u64() >> 24).set("skip", r.chance(1, 2) ? 0 : (int) r.below(4096));
         p.set("mem", mem);
+        maybe_swarm_cpu(r, p, 1, 10);
         (void) tier;
         return p;
 }
